@@ -283,7 +283,22 @@ def translate():
     if not persist_kw:
         problems.append('persist: websocket.connect(...) call not found')
 
-    facts['ast'] = dict(header_sep=ru[0], header_max=ru[1], proxy_sep=pru[0], proxy_max=pru[1],
+    # class-level assignments whose value is a call / display (a mutable object shared by all instances)
+    class_level = []
+    for cname, tree in (('WebSocket', ws_tree), ('WebsocketSession', se_tree), ('WebsocketStream', st_tree),
+                        ('FrameParser', fp_tree), ('ClientFrameParser', fp_tree), ('Parser', pa_tree),
+                        ('Deflate', parse_src('compression.py')), ('Utf8Validator', parse_src('utf8validator.py'))):
+        cn = find_class(tree, cname)
+        if cn is None:
+            problems.append('class %s not found' % cname)
+            continue
+        for st in cn.body:
+            if isinstance(st, ast.Assign) and isinstance(st.value, (ast.Call, ast.List, ast.Dict, ast.Set, ast.ListComp, ast.DictComp)):
+                for tg in st.targets:
+                    if isinstance(tg, ast.Name):
+                        class_level.append((cname, tg.id))
+    class_level = sorted(set(class_level))
+    facts['ast'] = dict(class_level=class_level,header_sep=ru[0], header_max=ru[1], proxy_sep=pru[0], proxy_max=pru[1],
                         texts=texts, state_attrs=state_attrs, ws_writes=ws_method_writes,
                         session_writes=se_writes, stream_writes=st_writes, fp_writes=fp_writes,
                         parser_writes=pa_writes, persist_kw=persist_kw,
@@ -394,6 +409,8 @@ def connectResetsFirst : Bool := {'true' if connect_resets_first else 'false'}
 def resetAssignsState : Bool := {'true' if reset_assigns_state else 'false'}
 /-- `WebSocket.connect` constructs a new session object -/
 def connectNewSession : Bool := {'true' if connect_new_session else 'false'}
+/-- class-level assignments of freshly constructed objects in the stateful classes: (class, name) -/
+def classLevelObjects : List (String × String) := [{', '.join('(%s, %s)' % (lean_str(a), lean_str(b)) for a, b in class_level)}]
 /-- keyword arguments `persist` forwards to `connect`: (keyword, variable) -/
 def persistConnectKw : List (String × String) := [{', '.join('(%s, %s)' % (lean_str(a), lean_str(b)) for a, b in persist_kw)}]
 
